@@ -30,6 +30,9 @@
 #include <stdexcept>
 #include <variant>
 #include <cassert>
+#include <cmath>
+#include <cstdio>
+#include <cstdlib>
 #include <cstring>
 
 using namespace UTAP;
@@ -1114,6 +1117,21 @@ static std::ostream& print_binder_type(std::ostream& os, bool old, const type_t&
     }
 }
 
+/** Prints a floating-point constant with as few digits as read back to the same value, always as a floating literal. */
+static std::ostream& print_double(std::ostream& os, double value)
+{
+    char buf[40];
+    for (int digits = 6; digits <= 17; ++digits) {
+        std::snprintf(buf, sizeof(buf), "%.*g", digits, value);
+        if (std::strtod(buf, nullptr) == value)
+            break;
+    }
+    os << buf;
+    if (std::isfinite(value) && std::strpbrk(buf, ".eE") == nullptr)
+        os << ".0";  // "1500" would be read back as an integer
+    return os;
+}
+
 int get_precedence_or_default(const expression_t& expr)
 {
     try {
@@ -1284,7 +1302,7 @@ std::ostream& expression_t::print(std::ostream& os, bool old) const
     case CONSTANT:
 
         if (get_type().is(Constants::DOUBLE)) {
-            os << get_double_value();
+            print_double(os, get_double_value());
         } else if (get_type().is_string()) {
             os << get_string_value();
         } else if (get_type().is_integer()) {
@@ -1300,7 +1318,16 @@ std::ostream& expression_t::print(std::ostream& os, bool old) const
         get(1).print(os << '[', old) << ']';
         break;
 
-    case UNARY_MINUS: embrace(os << '-', old, get(0), precedence); break;
+    case UNARY_MINUS: {
+        os << '-';
+        const auto& operand = get(0);
+        const auto* number = operand.get_kind() == CONSTANT ? std::get_if<int32_t>(&operand.data->value) : nullptr;
+        if (number != nullptr && *number < 0)  // "--2147483648" would be read as a decrement
+            operand.print(os << '(', old) << ')';
+        else
+            embrace(os, old, operand, precedence);
+        break;
+    }
 
     case POST_DECREMENT:
     case POST_INCREMENT: embrace(os, old, get(0), precedence) << (get_kind() == POST_DECREMENT ? "--" : "++"); break;
